@@ -1347,3 +1347,42 @@ func init() {
 		c.Check(ok, "empty-trie-accepted/"+fnName(f), f.Pos(), "the empty root is accepted without a proof node", "VerifyProof has no accepting path for the empty root: the (empty) proof that Prove produces for an empty trie is refused with `proof node 0 missing` instead of verifying every key as absent")
 	})
 }
+
+func init() {
+	extendProp("C02", "Decoding into a transaction object replaces everything derived from its previous contents: setDecoded stores the hash, size and sender caches on every path (the hash of a decoded transaction is the hash of the bytes just decoded, also when the object was used before).", nil, func(c *Ctx) {
+		c.Rule("RESET/C02.caches")
+		ct := "core/types"
+		f := c.Fn(ct, "(*Transaction).setDecoded")
+		if f == nil {
+			return
+		}
+		c.Funcs[f] = true
+		var rets []Site
+		for _, r := range c.Returns(f) {
+			if r.Instr.Block() != f.Recover {
+				rets = append(rets, r)
+			}
+		}
+		for _, fld := range []string{"hash", "size", "from"} {
+			var stores []Site
+			eachInstr(f, func(in ssa.Instruction) {
+				call, ok := in.(*ssa.Call)
+				if !ok || len(call.Call.Args) == 0 {
+					return
+				}
+				cal := call.Call.StaticCallee()
+				if cal == nil || cal.Name() != "Store" {
+					return
+				}
+				if fa, ok := call.Call.Args[0].(*ssa.FieldAddr); ok && fieldAddrName(fa) == ct+".Transaction."+fld {
+					stores = append(stores, Site{f, in})
+				}
+			})
+			if len(stores) == 0 {
+				c.Bad("cache-replaced/"+fld, f.Pos(), "setDecoded never stores the `"+fld+"` cache: a transaction object that is decoded into again keeps the value cached for its previous contents (Hash() then returns the hash of other bytes)")
+				continue
+			}
+			c.Dom("cache-replaced/"+fld, f, rets, "return", GSites("tx."+fld+".Store(…)", stores))
+		}
+	})
+}
